@@ -930,6 +930,252 @@ func (fl *flattener) flattenOnce(f *ast.File, skip map[*ast.FuncLit]bool) (chang
 
 var theFlattener = &flattener{}
 
+// spliceTail handles the one literal shape the unwrapping above refuses on purpose: a literal with defer, recover
+// or named results - what the inliner leaves behind for a helper that took the deferred blocks of its caller with
+// it. When such a literal is invoked in TAIL position of a declared function (`return func() (err error) {...}()`
+// as the last statement, or the bare call as the last statement of a function without results), its body can
+// simply take the place of the return statement, at the top level of the function (not in a nested block: the
+// top level of a literal's body is the scope of its results, `x, err := f()` there assigns the named result):
+//   - its return statements become return statements of the function (same values, same moment);
+//   - its deferred calls become deferred calls of the function: they were registered after every defer of the
+//     function itself and ran when the literal returned, i.e. immediately before the function's own defers - the
+//     same order and the same moment, since nothing follows a tail call; recover() keeps catching exactly the
+//     panics of the literal's body, the only code that runs after the registration;
+//   - its named results become the function's named results (names are added to an unnamed result list of the
+//     same arity; if the function has named results they must be the same names). They must still hold their zero
+//     value when the tail is reached: no statement before it assigns to them.
+// The result is re-type-checked like every other step.
+func spliceTail(f *ast.File) bool {
+	for _, d := range f.Decls {
+		fd, ok := d.(*ast.FuncDecl)
+		if !ok || fd.Body == nil || len(fd.Body.List) == 0 {
+			continue
+		}
+		last := fd.Body.List[len(fd.Body.List)-1]
+		var call *ast.CallExpr
+		var lit *ast.FuncLit
+		switch x := last.(type) {
+		case *ast.ReturnStmt:
+			if len(x.Results) == 1 {
+				call, lit = iife(x.Results[0])
+			}
+		case *ast.ExprStmt:
+			if fd.Type.Results == nil || len(fd.Type.Results.List) == 0 {
+				call, lit = iife(x.X)
+			}
+		}
+		if call == nil || flattenable(lit) || lit.Type.TypeParams != nil {
+			continue
+		}
+		// no labels/goto in the literal
+		bad := false
+		ast.Inspect(lit.Body, func(n ast.Node) bool {
+			switch x := n.(type) {
+			case *ast.LabeledStmt:
+				bad = true
+			case *ast.BranchStmt:
+				if x.Tok == token.GOTO {
+					bad = true
+				}
+			}
+			return !bad
+		})
+		if bad {
+			continue
+		}
+		// results
+		var litNames []string
+		litFields := 0
+		if lit.Type.Results != nil {
+			for _, fld := range lit.Type.Results.List {
+				litFields++
+				for _, nm := range fld.Names {
+					litNames = append(litNames, nm.Name)
+				}
+			}
+		}
+		if len(litNames) > 0 {
+			if fd.Type.Results == nil {
+				continue
+			}
+			var outer []string
+			outerFields := 0
+			for _, fld := range fd.Type.Results.List {
+				outerFields++
+				for _, nm := range fld.Names {
+					outer = append(outer, nm.Name)
+				}
+			}
+			switch {
+			case len(outer) == 0 && outerFields == len(litNames) && litFields == len(litNames):
+				for i, fld := range fd.Type.Results.List {
+					fld.Names = []*ast.Ident{ast.NewIdent(litNames[i])}
+				}
+			case len(outer) == len(litNames):
+				same := true
+				for i := range outer {
+					if outer[i] != litNames[i] {
+						same = false
+					}
+				}
+				if !same {
+					continue
+				}
+			default:
+				continue
+			}
+			// untouched before the tail
+			touched := false
+			isName := func(e ast.Expr) bool {
+				id, ok := e.(*ast.Ident)
+				if !ok {
+					return false
+				}
+				for _, n := range litNames {
+					if id.Name == n && n != "_" {
+						return true
+					}
+				}
+				return false
+			}
+			for _, st := range fd.Body.List[:len(fd.Body.List)-1] {
+				if as, ok := st.(*ast.AssignStmt); ok && as.Tok == token.DEFINE {
+					for _, l := range as.Lhs {
+						if isName(l) {
+							touched = true
+						}
+					}
+				}
+				ast.Inspect(st, func(n ast.Node) bool {
+					switch x := n.(type) {
+					case *ast.AssignStmt:
+						if x.Tok != token.DEFINE {
+							for _, l := range x.Lhs {
+								if isName(l) {
+									touched = true
+								}
+							}
+						}
+					case *ast.IncDecStmt:
+						if isName(x.X) {
+							touched = true
+						}
+					case *ast.UnaryExpr:
+						if x.Op == token.AND && isName(x.X) {
+							touched = true
+						}
+					}
+					return !touched
+				})
+			}
+			if touched {
+				continue
+			}
+		}
+		// parameters
+		var inner []ast.Stmt
+		ai := 0
+		okParams := true
+		for _, fld := range lit.Type.Params.List {
+			if _, isVar := fld.Type.(*ast.Ellipsis); isVar {
+				okParams = false
+			}
+			names := fld.Names
+			if len(names) == 0 {
+				names = []*ast.Ident{ast.NewIdent("_")}
+			}
+			for _, nm := range names {
+				if ai >= len(call.Args) {
+					okParams = false
+					break
+				}
+				t := theFlattener.fresh("P")
+				inner = append(inner, &ast.DeclStmt{Decl: &ast.GenDecl{Tok: token.VAR, Specs: []ast.Spec{&ast.ValueSpec{Names: []*ast.Ident{ast.NewIdent(t)}, Type: fld.Type, Values: []ast.Expr{call.Args[ai]}}}}})
+				inner = append(inner, &ast.AssignStmt{Lhs: []ast.Expr{ast.NewIdent("_")}, Tok: token.ASSIGN, Rhs: []ast.Expr{ast.NewIdent(t)}})
+				if nm.Name != "_" {
+					inner = append(inner, &ast.DeclStmt{Decl: &ast.GenDecl{Tok: token.VAR, Specs: []ast.Spec{&ast.ValueSpec{Names: []*ast.Ident{ast.NewIdent(nm.Name)}, Type: fld.Type, Values: []ast.Expr{ast.NewIdent(t)}}}}})
+					inner = append(inner, &ast.AssignStmt{Lhs: []ast.Expr{ast.NewIdent("_")}, Tok: token.ASSIGN, Rhs: []ast.Expr{ast.NewIdent(nm.Name)}})
+				}
+				ai++
+			}
+		}
+		if !okParams || ai != len(call.Args) {
+			continue
+		}
+		// The body goes to the TOP LEVEL of the function, not into a nested block: in the literal, `x, err := f()`
+		// at the top level of the body assigns the named result err; inside a nested block it would declare a new
+		// one. Conversely no top-level name of the body may already be declared at the function's top level
+		// (`:=` would silently reuse it).
+		declared := func(list []ast.Stmt, into map[string]bool) {
+			for _, st := range list {
+				switch x := st.(type) {
+				case *ast.AssignStmt:
+					if x.Tok == token.DEFINE {
+						for _, l := range x.Lhs {
+							if id, ok := l.(*ast.Ident); ok && id.Name != "_" {
+								into[id.Name] = true
+							}
+						}
+					}
+				case *ast.DeclStmt:
+					if gd, ok := x.Decl.(*ast.GenDecl); ok {
+						for _, sp := range gd.Specs {
+							switch y := sp.(type) {
+							case *ast.ValueSpec:
+								for _, id := range y.Names {
+									into[id.Name] = true
+								}
+							case *ast.TypeSpec:
+								into[y.Name.Name] = true
+							}
+						}
+					}
+				case *ast.LabeledStmt:
+					into[x.Label.Name] = true
+				}
+			}
+		}
+		outerNames := map[string]bool{}
+		if fd.Recv != nil {
+			for _, fld := range fd.Recv.List {
+				for _, id := range fld.Names {
+					outerNames[id.Name] = true
+				}
+			}
+		}
+		for _, fld := range fd.Type.Params.List {
+			for _, id := range fld.Names {
+				outerNames[id.Name] = true
+			}
+		}
+		declared(fd.Body.List[:len(fd.Body.List)-1], outerNames)
+		innerNames := map[string]bool{}
+		declared(inner, innerNames)
+		declared(lit.Body.List, innerNames)
+		clash := false
+		for n := range innerNames {
+			if outerNames[n] {
+				clash = true
+			}
+			for _, r := range litNames {
+				if r == n && r != "_" {
+					// `x, err := ...` re-using a named result is exactly what must keep working; a plain
+					// redeclaration `err := ...` of it would not compile in the literal either
+					clash = clash || false
+				}
+			}
+		}
+		if clash {
+			continue
+		}
+		inner = append(inner, lit.Body.List...)
+		out := append([]ast.Stmt{}, fd.Body.List[:len(fd.Body.List)-1]...)
+		fd.Body.List = append(out, inner...)
+		return true
+	}
+	return false
+}
+
 // flattenFile unwraps immediately-invoked literals in one file as long as the
 // result type-checks; it returns the number of literals unwrapped.
 func flattenFile(name string, content map[string][]byte, check func() error) int {
@@ -938,6 +1184,27 @@ func flattenFile(name string, content map[string][]byte, check func() error) int
 		return 0
 	}
 	n := 0
+	for k := 0; k < 20; k++ {
+		fset := token.NewFileSet()
+		f, err := parser.ParseFile(fset, name, content[name], parser.SkipObjectResolution)
+		if err != nil {
+			return n
+		}
+		if !spliceTail(f) {
+			break
+		}
+		var buf bytes.Buffer
+		if err := format.Node(&buf, fset, f); err != nil {
+			break
+		}
+		old := content[name]
+		content[name] = buf.Bytes()
+		if err := check(); err != nil {
+			content[name] = old
+			break
+		}
+		n++
+	}
 	for k := 0; k < 50; k++ {
 		fset := token.NewFileSet()
 		f, err := parser.ParseFile(fset, name, content[name], parser.SkipObjectResolution)
